@@ -38,8 +38,12 @@ for d in sorted(glob.glob(os.path.join(HERE, 'seeded', '*'))):
             patch_applies=True,
             demo_unchanged_exit=e.get('demo_unchanged_exit'),
             demo_changed_exit=e.get('demo_changed_exit'),
-            ran="tools/seeded_eval.sh: demo.py on a scratch copy of /repo's tree without and with patch.diff; "
-                "then ./check <property> with VERIF_REPO pointing at the patched copy"),
+            ran=("tools/seeded_final.sh: demo.py in /repo (unchanged tree), git -C /repo apply patch.diff, demo.py, "
+                 "./check <property> --tier quick, git -C /repo checkout -- ." if e.get('how') else
+                 "tools/seeded_eval.sh: demo.py on a scratch copy of /repo's tree without and with patch.diff; "
+                 "then ./check <property> with VERIF_REPO pointing at the patched copy"),
+            check_wall_s=e.get('wall_s'),
+            rebased=a.get('rebased')),
         agent_tests_run=a.get('tests_run', ''),
         checks=checks,
         demo_unchanged_exit=e.get('demo_unchanged_exit'),
